@@ -31,7 +31,11 @@
    branches of a Parallel (n - 1) / instances of a parallel loop (N - 1) follow without a walk and
    without a query of c in between.
    Guards without variables are re-evaluated like all others (no query is expected for them).
-   The walk has fuel; when it runs out the monitor gives up and accepts the rest of the trace. *)
+   The instances of a parallel loop are numbered in the order of their task-started notifications; the
+   number is kept like an iteration counter, under the position of the loop (the walk never reads it).
+   The walk has fuel; when it runs out the monitor gives up and accepts the rest of the trace.
+   [chk] is a hook: an additional test of every started notification against the NEW record of its
+   instance (position, counters); [mon_decide] uses none, MonitorsParams.v the parameter test. *)
 From PFDL Require Export MonitorsFork.
 
 Inductive gk :=
@@ -119,7 +123,7 @@ Section Walk.
       | GPar n => if Nat.eqb n 0 then walk f' pre (S i) cn q else Some (Some ((pre ++ [i]) ++ [0]), cn, q, n - 1)
       | GPLoop lim =>
         match rlimit lim q with
-        | Some (N, q') => if Z.ltb 0 N then Some (Some ((pre ++ [i]) ++ [0]), cn, q', Z.to_nat N - 1)
+        | Some (N, q') => if Z.ltb 0 N then Some (Some ((pre ++ [i]) ++ [0]), setc (pre ++ [i]) 0 cn, q', Z.to_nat N - 1)
                           else walk f' pre (S i) cn q'
         | None => None
         end
@@ -222,6 +226,7 @@ Inductive outcome := Reject | GiveUp | Next (r : drec).
 Section Step.
   Variable GK : name -> list nat -> gk.
   Variable orc : oracle.
+  Variable chk : drec -> notif -> bool.   (* an additional test of a started notification against the new record of its instance *)
   Variable fuel : nat.
 
   (* the queries of the walk are those asked in the instance's context since the last notification
@@ -249,6 +254,13 @@ Section Step.
     | None => None
     end.
 
+  (* the instances of a parallel loop are numbered in the counter of the loop's position *)
+  Definition sib_cnt (G : list nat -> gk) (t : list nat) (cn : cnts) : cnts :=
+    match unsnoc t with
+    | Some (P, _) => match G P with GPLoop _ => setc P (S (getc P cn)) cn | _ => cn end
+    | None => cn
+    end.
+
   (* a statement at [p] of the instance with record [r] is started while [q] queries have been asked *)
   Definition on_start (r : drec) (p : list nat) (q : nat) : outcome :=
     match d_more r with
@@ -256,7 +268,7 @@ Section Step.
       (* inside the fork of a Parallel / parallel loop: the next sibling, no guard in between *)
       match d_last r with
       | Some t => if option_eqb (list_eqb Nat.eqb) (sibling (GK (d_task r)) t) (Some p) && is_none (d_first r)
-                  then Next {| d_task := d_task r; d_last := Some p; d_cnt := d_cnt r; d_more := m; d_first := None |}
+                  then Next {| d_task := d_task r; d_last := Some p; d_cnt := sib_cnt (GK (d_task r)) t (d_cnt r); d_more := m; d_first := None |}
                   else Reject
       | None => Reject
       end
@@ -306,7 +318,7 @@ Section Step.
           else match on_start r (st_path (n_site n)) q with
                | Reject => None
                | GiveUp => Some (lose S0)
-               | Next r' => Some {| ds_recs := add (setr c r' recs); ds_q := q; ds_lost := false |}
+               | Next r' => if chk r' n then Some {| ds_recs := add (setr c r' recs); ds_q := q; ds_lost := false |} else None
                end
         end
       end
@@ -348,8 +360,11 @@ End Step.
 
 Definition decide_fuel : nat := 400.
 
+Definition no_check (r : drec) (n : notif) : bool := true.
+Definition holds_check_with (GK : name -> list nat -> gk) (orc : oracle) (chk : drec -> notif -> bool) (fuel : nat)
+    (tr : list callrec) : bool := dec_run GK orc chk fuel dst0 tr.
 Definition holds_decide_with (GK : name -> list nat -> gk) (orc : oracle) (fuel : nat) (tr : list callrec) : bool :=
-  dec_run GK orc fuel dst0 tr.
+  holds_check_with GK orc no_check fuel tr.
 
 Definition mon_decide (c : runcase) (tr : list callrec) : bool :=
   holds_decide_with (gk_at (p_tasks (rc_prog c))) (orc_of (rc_vals c)) decide_fuel tr.
